@@ -76,10 +76,12 @@ def _build(op, table_names, stored):
             args = exerciser.known_args(r, nm)
         else:
             args = exerciser.shapes(r, extra, table_names, no_functions=nm in exerciser.KEYED)
-        if r.random() < 0.1:
+        if r.random() < 0.15:
             # indexing / slicing whatever is at hand, builtins included
             base = ['name', r.choice(table_names + extra + list(exerciser.HOST_NAMES))]
-            args = args + [['index', base, exerciser.atom(r, extra)] if r.random() < 0.7 else ['slice', base, 'a:b', ['num', '0'], ['num', '2']]]
+            bound = lambda: r.choice([['num', '0'], ['num', '2'], ['num', '1.5'], ['num', '0.5'], ['neg', ['num', '1']], ['bin', '/', ['num', '3'], ['num', '2']], ['none']])
+            args = args + [['index', base, exerciser.atom(r, extra)] if r.random() < 0.5 else
+                           ['slice', base, r.choice(['a:b', 'a:', ':b', '::s']), bound(), bound()]]
         if first is not None:
             args = [first] + args[1:] if args else [first]
         return ['call', nm, args, gen.sugar(r, len(args))]
